@@ -483,7 +483,9 @@ type route struct {
 var routePool = []route{
 	{"121042882", "231380104", ""},
 	{"076401251", "231380104", ""},
-	{"000000000", "231380104", "BypassOriginValidation"},      // an all-zero origin
+	{"000000000", "231380104", "BypassOriginValidation"}, // an all-zero origin
+	{"1234567890", "231380104", ""},                      // ten characters: written in full only under BypassOriginValidation
+	{"1234567890", "231380104", ""},
 	{"121042882", "123456789", "BypassDestinationValidation"}, // a destination whose check digit is wrong
 }
 
